@@ -22,6 +22,35 @@ LEARNER_EXPR_ATTRS = {"curr_algo", "V_algo", "algorithm"}
 PURE_NS = ("np.", "numpy.", "math.", "copy.")
 
 
+def learner_expr(e, fn=None, model=None, depth=0):
+    """Does e denote a base learner?  self.curr_algo / self.V_algo[..] / self.algorithm, or a local every one of whose
+    assignments in the enclosing function `fn` is such an expression."""
+    while isinstance(e, ast.Subscript):
+        e = e.value
+    if is_self_attr(e) and e.attr in LEARNER_EXPR_ATTRS:
+        return True
+    if isinstance(e, ast.Name) and e.id != "self" and depth < 3:
+        if fn is None and model is not None:
+            fn = model.enclosing_function(e)
+        if fn is None:
+            return False
+        if e.id in [a.arg for a in fn.args.args]:
+            return False
+        vals = []
+        for s2 in ast.walk(fn):
+            if isinstance(s2, ast.Assign):
+                for t in s2.targets:
+                    if isinstance(t, ast.Name) and t.id == e.id:
+                        vals.append(s2.value)
+                    elif isinstance(t, (ast.Tuple, ast.List)) and any(isinstance(x, ast.Name) and x.id == e.id for x in ast.walk(t)):
+                        return False
+            elif isinstance(s2, (ast.AugAssign, ast.AnnAssign, ast.For, ast.comprehension)) and \
+                    any(isinstance(x, ast.Name) and x.id == e.id and isinstance(x.ctx, ast.Store) for x in ast.walk(s2.target)):
+                return False
+        return bool(vals) and all(learner_expr(v, fn, model, depth + 1) for v in vals)
+    return False
+
+
 class Access:
     def __init__(self, model, eff, algo_cls):
         self.model = model
@@ -40,11 +69,7 @@ class Access:
         return self._cfg[id(fn)]
 
     def is_learner_expr(self, e):
-        while isinstance(e, ast.Subscript):
-            e = e.value
-        if is_self_attr(e) and e.attr in LEARNER_EXPR_ATTRS:
-            return True
-        return isinstance(e, ast.Name) and e.id in ("algo",)
+        return learner_expr(e, None, self.model)
 
     def node_method(self, name):
         for c in self.node_mro:
